@@ -1317,7 +1317,8 @@ class ComplexModelBase(ModelBase):
     @classmethod
     def _append_to_variants(cls, field_name, field_type):
         if cls.Attributes._variants is not None:
-            for c in cls.Attributes._variants:
+            # customizing the field type can register new variants
+            for c in list(cls.Attributes._variants):
                 c.append_field(field_name, field_type)
 
     @classmethod
@@ -1328,7 +1329,7 @@ class ComplexModelBase(ModelBase):
     @classmethod
     def _insert_to_variants(cls, index, field_name, field_type):
         if cls.Attributes._variants is not None:
-            for c in cls.Attributes._variants:
+            for c in list(cls.Attributes._variants):
                 c.insert_field(index, field_name, field_type)
 
     @classmethod
@@ -1359,7 +1360,7 @@ class ComplexModelBase(ModelBase):
     @classmethod
     def _replace_in_variants(cls, field_name, field_type):
         if cls.Attributes._variants is not None:
-            for c in cls.Attributes._variants:
+            for c in list(cls.Attributes._variants):
                 c._replace_field(field_name, field_type)
 
     @classmethod
